@@ -3017,7 +3017,7 @@ impl StrName {
                 let next = ps.next()?;
                 if next == '#' {
                     let next = ps.next()?;
-                    if next == 'x' {
+                    if next == 'x' || next == 'X' {
                         // parse `&#x...;`
                         loop {
                             let Some(next) = ps.next() else {
